@@ -34,6 +34,7 @@ BASES = {
     "polygon": [(SQ, HOLE), (), None, (SQ2,)],
     "multipolygon": [((SQ,), (SQ2,)), None, (), ((SQ, HOLE),)],
 }
+NESTED_EMPTY = {"multiline": ((),), "polygon": ((),), "multipolygon": (((),),)}
 BOXES = [(0, 0, 1, 1), (-1, -1, 10, 10), (3, 3, 5, 5), (1.25, 1.25, 1.5, 1.5), (5, 0, 6, 1), (4, 2, 4.5, 3),
          (10, 10, 0, 0), (6, 3, 7, 4), (2, 5, 3, 7)]
 HD_BOUNDS = (-2.0, -2.0, 14.0, 14.0)
@@ -43,6 +44,9 @@ def base_elems(kind, st, long=False):
     el = list(BASES[kind])
     if kind == "point" and not st.startswith("float"):
         el[3] = (0, 0)
+    if kind in NESTED_EMPTY and st == "int32":
+        # the other spelling of an element without coordinates: its only line / ring / polygon has no vertex
+        el[el.index(())] = NESTED_EMPTY[kind]
     if long:
         # 20 elements: the validity bitmap spans three bytes; missing elements on both sides of the byte boundaries
         pres = [e for e in el if e is not None]
